@@ -29,6 +29,9 @@ CallV(ps, c) ==
   \cup Clause(~excluded /\ c.sup.ok # c.py.ok, "C20_BindCallsigAccepts")
   \cup Clause(~excluded /\ c.sup.ok /\ c.py.ok /\ c.sup.map # c.py.map, "C20_BindCallsigMap")
   \cup Clause(~excluded /\ c.sorted # c.py.ok, "C20_SortCallsigsPartition")
+  (* the same comparison with None for every argument (both sides real): None is a value, not "not passed" *)
+  \cup Clause(~excluded /\ c.supn.ok # c.pyn.ok, "C20_BindCallsigAccepts")
+  \cup Clause(~excluded /\ c.supn.ok /\ c.pyn.ok /\ c.supn.map # c.pyn.map, "C20_BindCallsigMap")
   \cup Clause(Accepts(ps, shape) # b.ok, "HARNESS_AcceptsIsNotBindOk")
 
 BindV(e) ==
@@ -45,8 +48,26 @@ MakeUpV(e) ==
       want == {<<np, kw>> : np \in 0..(nnamed + e.extra), kw \in SUBSET NamedNames(ps)}
   IN Clause(~(want \subseteq got), "C20_MakeUpCallsigsComplete")
 
+(* textual round trip: what s(text) / func_from_sig gave back against the signature the text was rendered from *)
+SetOf(q) == {q[i] : i \in DOMAIN q}
+RoundV(e) ==
+  LET nonkwo(ps) == SelectSeq(ps, LAMBDA p : p.k # "kwo")
+      kwo(ps) == SetOf(SelectSeq(ps, LAMBDA p : p.k = "kwo"))
+  IN IF e.tag # "ok" THEN {"C20_RoundTripRaised"}
+     ELSE Clause(IF e.upto_kwo_order THEN nonkwo(e.got) # nonkwo(e.want) \/ kwo(e.got) # kwo(e.want) \/ Len(e.got) # Len(e.want) ELSE e.got # e.want,
+                 "C20_RoundTripDiffers")
+          \cup Clause(e.retgot # e.retwant, "C20_RoundTripReturnAnnotation")
+(* the function made by f returns its arguments keyed by parameter name: CPython's binding, observed through the returned mapping *)
+FCallV(e) ==
+  UNION {LET c == e.calls[i]  shape == [np |-> c.np, kw |-> Rng(c.kw)]  b == BindShape(e.ps, shape) IN
+         IF PoKwClash(e.ps, shape) THEN {}
+         ELSE Clause(b.ok # c.py.ok, "C20_FAcceptsVsBinding") \cup Clause(b.ok /\ c.py.ok /\ b.map # c.py.map, "C20_FReturnsArgumentsByName")
+         : i \in DOMAIN e.calls}
+
 Verdict(e) == CASE e.op = "bind" -> BindV(e)
                 [] e.op = "makeup" -> MakeUpV(e)
+                [] e.op = "roundtrip" -> RoundV(e)
+                [] e.op = "fcall" -> FCallV(e)
                 [] OTHER -> {}
 
 Init == l = 1
